@@ -17,8 +17,9 @@ NegRank == {-3}
 
 AllEight == <<"Debug", "Clone", "PartialEq", "Eq", "PartialOrd", "Ord", "Hash", "Default">>
 WithCopy == <<"Debug", "Clone", "Copy", "PartialEq", "Eq", "PartialOrd", "Ord", "Hash", "Default">>
-TraitSetsQuick == { AllEight }
-TraitSetsThorough == { AllEight, WithCopy }
+Alone == <<"Debug", "PartialEq", "PartialOrd", "Hash", "Clone">>   \* primaries without their partners: their own parsers run
+TraitSetsQuick == { AllEight, Alone }
+TraitSetsThorough == { AllEight, WithCopy, Alone }
 
 \* the documented couplings
 Partners(t) ==
